@@ -82,6 +82,9 @@ type WorkerOut struct {
 	RestartFrom uint64 `json:"restart_from,omitempty"`
 	Restarts    uint64 `json:"restarts,omitempty"`
 	SegFrom     uint64 `json:"segment_from"`
+	// SitesSeen: yield sites reached by this worker's runs (instrumented builds)
+	SitesSeen []uint32 `json:"sites_seen,omitempty"`
+	SitesAll  int      `json:"sites_all,omitempty"`
 }
 
 func progHash(run *work.Run) uint64 {
@@ -326,6 +329,14 @@ func worker(args []string) {
 	}
 	sort.Slice(out.Distinct, func(i, j int) bool { return out.Distinct[i] < out.Distinct[j] })
 	out.WallS = time.Since(start).Seconds()
+	if sites != nil && len(sites.Sites) > 1 {
+		out.SitesAll = len(sites.Sites) - 1
+		for i, b := range sites.Seen {
+			if b {
+				out.SitesSeen = append(out.SitesSeen, uint32(i))
+			}
+		}
+	}
 	enc := json.NewEncoder(os.Stdout)
 	if err := enc.Encode(out); err != nil {
 		fmt.Fprintln(os.Stderr, err)
